@@ -184,7 +184,12 @@ def main():
     }
     if replay_case is None:
         os.makedirs(os.path.join(VERIF, "evidence"), exist_ok=True)
-        with open(os.path.join(VERIF, "evidence", pid + ".json"), "w") as f:
+        evdir = "evidence"
+        if os.path.realpath(common.REPO) != "/repo":
+            # a run against a scratch copy (seeded-change testing) must not overwrite the real evidence
+            evdir = "replays"
+            ev["repo"] = common.REPO
+        with open(os.path.join(VERIF, evdir, pid + ("" if evdir == "evidence" else ".scratch-evidence") + ".json"), "w") as f:
             json.dump(ev, f, indent=1, default=jsonable)
     for ln in lines:
         print(ln)
